@@ -19,6 +19,13 @@ namespace MpVerif.C20
 
 abbrev Str := List Char
 
+/- `cl!"abc"` = `['a','b','c']` (a literal list, so that the kernel can evaluate definitions using it) -/
+open Lean in
+macro:max "cl!" s:str : term => do
+  let cs := s.getString.toList
+  let elems : Array (TSyntax `term) := cs.toArray.map (fun c => ⟨Syntax.mkCharLit c⟩)
+  `([$elems,*])
+
 mutual
 inductive Json where
   | null
@@ -61,14 +68,14 @@ def quote (s : Str) : Str := '"' :: (s ++ ['"'])
 
 mutual
 def render : Json → Str
-  | .null => "null".toList
-  | .bool true => "true".toList
-  | .bool false => "false".toList
+  | .null => cl!"null"
+  | .bool true => cl!"true"
+  | .bool false => cl!"false"
   | .num t => t
   | .str s => quote s
-  | .arr .nil => "[]".toList
+  | .arr .nil => cl!"[]"
   | .arr (.cons x xs) => '[' :: (render x ++ (renderTail xs ++ [']']))
-  | .obj .nil => "{}".toList
+  | .obj .nil => cl!"{}"
   | .obj (.cons k v ms) => '{' :: (quote k ++ (':' :: ' ' :: (render v ++ (renderMTail ms ++ ['}']))))
 def renderTail : JList → Str
   | .nil => []
@@ -77,6 +84,16 @@ def renderMTail : JMems → Str
   | .nil => []
   | .cons k v ms => ',' :: ' ' :: (quote k ++ (':' :: ' ' :: (render v ++ renderMTail ms)))
 end
+
+/-- `x1, x2, …` (the inside of a non-empty array) -/
+def renderElems : JList → Str
+  | .nil => []
+  | .cons x xs => render x ++ renderTail xs
+
+/-- `"k1": v1, "k2": v2, …` (the inside of a non-empty object) -/
+def renderMems : JMems → Str
+  | .nil => []
+  | .cons k v ms => quote k ++ (':' :: ' ' :: (render v ++ renderMTail ms))
 
 /-! ## `MiniJSONWriter` as an op machine (production build: asserts are no-ops) -/
 
@@ -164,9 +181,9 @@ def run (s : WState) (ops : List Op) : WState := ops.foldl step s
    final `Close()` (`jw[k] = scalar`, `jw << x`, `WriteSequence`, nested `jw[k]`/`++jw`) -/
 mutual
 def opsOf : Json → List Op
-  | .null => [.scalar "null".toList, .close]
-  | .bool true => [.scalar "true".toList, .close]
-  | .bool false => [.scalar "false".toList, .close]
+  | .null => [.scalar cl!"null", .close]
+  | .bool true => [.scalar cl!"true", .close]
+  | .bool false => [.scalar cl!"false", .close]
   | .num t => [.scalar t, .close]
   | .str s => [.string s, .close]
   | .arr xs => opsOfList xs ++ [.close]
@@ -325,15 +342,15 @@ def pValue : Nat → Str → Option (Json × Str)
         | some (s, r2) => some (.str s, r2)
         | none => none
       else if c = 't' then
-        match dropPrefix "true".toList (c :: r) with
+        match dropPrefix cl!"true" (c :: r) with
         | some r2 => some (.bool true, r2)
         | none => none
       else if c = 'f' then
-        match dropPrefix "false".toList (c :: r) with
+        match dropPrefix cl!"false" (c :: r) with
         | some r2 => some (.bool false, r2)
         | none => none
       else if c = 'n' then
-        match dropPrefix "null".toList (c :: r) with
+        match dropPrefix cl!"null" (c :: r) with
         | some r2 => some (.null, r2)
         | none => none
       else
